@@ -112,7 +112,8 @@ Inductive bsize := SzNone | SzSized (n : N) | SzStream.
 
 (* the parts of ResponseHead the decision reads and writes *)
 Record head := { h_status : N; h_content_encoding : option bytes; h_vary : list bytes;
-                 h_no_chunking : bool }.
+                 h_no_chunking : bool;
+                 h_content_length : option bytes (* a Content-Length header put there by the handler *) }.
 
 Definition coding_name (c : coding) : bytes :=
   match c with
@@ -137,10 +138,17 @@ Inductive body_action :=
 | BPass          (* encoder: None — chunks pass through unchanged *)
 | BEncode (c : coding).
 
-(* update_head *)
+(* update_head (after the repair F29: the handler's Content-Length, which describes the unencoded
+   body, is removed) *)
 Definition update_head (c : coding) (h : head) : head :=
   {| h_status := h_status h; h_content_encoding := Some (coding_name c);
-     h_vary := h_vary h ++ [vary_accept_encoding]; h_no_chunking := false |}.
+     h_vary := h_vary h ++ [vary_accept_encoding]; h_no_chunking := false;
+     h_content_length := None |}.
+(* update_head before F29: the header stayed *)
+Definition update_head_before_F29 (c : coding) (h : head) : head :=
+  {| h_status := h_status h; h_content_encoding := Some (coding_name c);
+     h_vary := h_vary h ++ [vary_accept_encoding]; h_no_chunking := false;
+     h_content_length := h_content_length h |}.
 
 Definition encoder_response (enc : coding) (h : head) (size : bsize) : body_action * head :=
   match size with
